@@ -147,7 +147,8 @@ type hist struct {
 	cnt   map[string]int
 	last  string
 	fp    uint64
-	nt    bool
+	nt    bool // a present key was overwritten or deleted
+	ntB   bool // a checked content had a branch node
 }
 
 func clone(m map[string][]byte) map[string][]byte {
@@ -278,7 +279,7 @@ func (h *hist) checkRoot(b *branch, got common.Hash, where string) *specStats {
 	}
 	h.run.Distinct("trie_shapes", shapeFP(st))
 	if st.Branches > 0 {
-		h.nt = true
+		h.ntB = true
 	}
 	return st
 }
@@ -1011,7 +1012,7 @@ func historyCase(secure bool) func(c *core.Case) {
 				h.finalCheck(b, i == len(brs)-1 && r.Intn(2) == 0)
 			}
 		})
-		if h.nt {
+		if h.nt && h.ntB {
 			c.Run.Nontrivial(fmt.Sprintf("%s|%x", c.Group, h.fp))
 		}
 		if c.I < 2 {
@@ -1180,13 +1181,17 @@ func Main() {
 	r.Floor("spec_branch_values", 50)
 	r.Floor("spec_last_nibble_forks", 50)
 	r.Floor("stack_roots", 500)
+	r.Floor("stack_marshal_roundtrips", 200)
+	r.Floor("derive_sha", 50)
+	r.Floor("iterations_prefix_related_keys", 50)
+	r.Floor("corpus_scenarios", numCorpus)
 	r.Floor("proofs_present", 2000)
 	r.Floor("proofs_absent", 1000)
 	r.Floor("proof_mutations", 20000)
 	r.Floor("range_proofs", 300)
 	r.Floor("range_tampers", 1000)
 	r.Floor("kept_roots_read", 200)
-	r.Floor("hash_after_100plus_updates", 3)
+	r.Floor("hash_after_100plus_updates", 20)
 	r.Floor("orders_checked", 2000)
 	r.Finish()
 }
